@@ -65,7 +65,12 @@ func twinM() []byte {
 	// active segments whose offset is the IMPORTED global: id goes into the table at slot base, a marker
 	// byte into the private memory at address base (the call counter lives at 16) -- per instance, whatever another instance's exporter said
 	m.Elems = []wasmb.Elem{{Mode: 0, Offset: wasmb.ConstGlobalGet(1), Funcs: []uint32{id}}}
-	m.Datas = []wasmb.Data{{Offset: wasmb.ConstGlobalGet(1), Bytes: []byte{0x5A}}}
+	m.Datas = []wasmb.Data{{Offset: wasmb.ConstGlobalGet(1), Bytes: []byte{0x5A}}, {Passive: true, Bytes: []byte{0x77}}}
+	m.DataCount = true
+	// minit(): memory.init from the passive segment to address 50, returns that byte; ddrop(): data.drop it.
+	// Dropping is per INSTANCE: the siblings' copies of the segment stay
+	m.AddFunc(nil, i32, nil, c().I32Const(50).I32Const(0).I32Const(1).MemoryInit(1).I32Const(50).I32Load8U(0).B, "minit")
+	m.AddFunc(nil, nil, nil, c().DataDrop(1).B, "ddrop")
 	m.AddFunc(i32, i32, nil, c().LocalGet(0).I32Load8U(0).B, "peek8")
 	// a passive element segment whose item is "global.get" of the module's OWN funcref global (= ref.func id);
 	// pinit(slot): table.init it into tab[slot]
@@ -136,6 +141,7 @@ func runTwins(t *tape.Tape, cfg sim.Config) (res sim.Result) {
 	}
 	slotsOf := [2][6]int{{-1, -1, -1, -1, -1, -1}, {-1, -1, -1, -1, -1, -1}}
 	sharedOf := [2]int32{}
+	dropped := make([]bool, n)
 	for i := range mods {
 		// instantiation order: the later instance's element segment wins the slot
 		slotsOf[tOf[i]][bases[tOf[i]]] = i
@@ -154,7 +160,28 @@ func runTwins(t *tape.Tape, cfg sim.Config) (res sim.Result) {
 	crossTail := 0
 	for step, nsteps := 0, t.Range(6, 24); step < nsteps && res.Violation == nil; step++ {
 		i := t.Choose(n)
-		switch op := t.Weighted(3, 3, 4, 1, 2); op {
+		switch op := t.Weighted(3, 3, 4, 1, 2, 2, 1); op {
+		case 5:
+			got, err := mods[i].ExportedFunction("minit").Call(ctx)
+			res.Logf("m%d.minit()", i)
+			shape = append(shape, "minit")
+			if dropped[i] {
+				if err == nil || !strings.Contains(err.Error(), "out of bounds memory access") {
+					res.Fail("view-diverged", "m%d.minit() after m%d dropped its passive data segment: got %v %v, expected the out-of-bounds trap", i, i, got, errLine(err))
+					return
+				}
+			} else if err != nil || got[0] != 0x77 {
+				res.Fail("view-diverged", "m%d.minit(): m%d never dropped its passive data segment (instances that did: %v); got %v %v, expected 0x77", i, i, dropped, got, errLine(err))
+				return
+			}
+		case 6:
+			if _, err := mods[i].ExportedFunction("ddrop").Call(ctx); err != nil {
+				res.Fail("unexpected-trap", "m%d.ddrop(): %v", i, err)
+				return
+			}
+			dropped[i] = true
+			res.Logf("m%d.ddrop()", i)
+			shape = append(shape, "ddrop")
 		case 0, 4:
 			s := t.Choose(6)
 			fn := "put"
